@@ -900,3 +900,6 @@ impl fmt::Display for TokenTag {
         write!(f, "{}", self.as_str())
     }
 }
+
+#[cfg(all(kani, abra_verif))]
+include!(concat!(env!("ABRA_VERIF_HARNESS_DIR"), "/lexer.rs"));
